@@ -52,14 +52,16 @@
   { \
     exit(b); \
   } \
-  memory->write8(a, b)
+  memory->write8((a) & 0xffffff, b)
 
+// The STM8 has a 24 bit address bus and is big endian.
 #define WRITE_RAM16(a, w) \
   if ((a) == (uint32_t)break_io) \
   { \
     exit(w); \
   } \
-  memory->write16(a, w)
+  memory->write8((a) & 0xffffff, ((w) >> 8) & 0xff); \
+  memory->write8(((a) + 1) & 0xffffff, (w) & 0xff)
 
 #define PUSH_STACK(n)   memory->write8(reg_sp, (n) & 0xff); --reg_sp  // caution: "--" side-effects
 
